@@ -127,11 +127,11 @@ def gen_ser_opts(rng, kind, cli):
             if kind in VECTOR_KINDS and rng.random() < 0.4:
                 kw['scale'] = rng.choice((0.5, 1.5, 2.25, 3.0, 10.5))
             else:
-                kw['scale'] = rng.randint(1, 6)
+                kw['scale'] = rng.randint(1, 6) if rng.random() < 0.93 else rng.choice((8, 10, 16))
         if cli and isinstance(kw.get('scale'), float) and kw['scale'] == int(kw['scale']):
             kw['scale'] = int(kw['scale'])  # the CLI turns integral floats into int (cli._convert_scale); same value, same flag
     if rng.random() < 0.5:
-        kw['border'] = rng.choice((0, 1, 2, 4, 5, 7))
+        kw['border'] = rng.choice((0, 0, 1, 2, 4, 5, 7, 10))
     if kind in ('svg', 'png', 'eps', 'pdf', 'pam', 'ppm', 'xpm', 'tex'):
         if rng.random() < 0.5:
             kw['dark'] = _color(rng, kind, cli, allow_none=kind in ('svg', 'png'))
